@@ -239,6 +239,12 @@ func GenPolicyFor(t *rapid.T, adversarial bool, file string) simrt.PolicySpec {
 		sort.Slice(sp.HoldAt, func(i, j int) bool { return sp.HoldAt[i] < sp.HoldAt[j] })
 		sp.WindowUS = rapid.SampledFrom([]int64{0, 0, 15000, 40000, 200000, 6000000}).Draw(t, "window_us")
 		sp.Shuffle = rapid.Bool().Draw(t, "shuffle")
+		if rapid.Bool().Draw(t, "hold_after_state") {
+			// the delay goes where a step has just claimed a state: the k-th such moment of the run
+			sp.HoldState = rapid.IntRange(1, 30).Draw(t, "hold_state")
+			sp.HoldAt = nil
+			sp.WindowUS = rapid.SampledFrom([]int64{40000, 200000, 200000, 6000000}).Draw(t, "state_window_us")
+		}
 		if sp.PTime > 100 {
 			sp.PTime = 0
 		}
